@@ -28,7 +28,7 @@ META = {
     "ready": True,
     "category": "proof",
     "technique": "Lean 4 proofs over an executable model of the numeric tower (fixnum / bignum / 32-bit ratio / big ratio with the IntoSteelVal canonicalisation and the checked-then-promote case analysis of numbers.rs), refinement to Lean's Rat for all operands; arm tables and repair flags regenerated from the Rust source; correspondence of the real engine with model and specification over boundary operand tuples through 8-12 call shapes; mixed exact/inexact arithmetic compared with IEEE-754 / exact-value reference results (test level)",
-    "level_text": "Theorems (SteelVerif/C10/Props.lean), for ALL canonical exact operands of any magnitude: add, subtract, negate, multiply, divide, quotient, remainder, modulo, abs, gcd, lcm, expt (exact exponent), numerator, denominator and exact-integer-sqrt of the model return a value that denotes the mathematically exact result (Lean Rat / Int) and is canonical (fixnum iff it fits 64 bits, ratio reduced with denominator > 1, 32-bit ratio iff both parts fit, integral ratios are integers); division by zero is an error exactly when the divisor is zero; = < > <= >= decide the order of the denoted values; two canonical values that denote the same number are identical; the specialised immediate-operand paths equal the generic ones. Where the code is defective (abs / reciprocal / expt on the most negative 64-bit and 32-bit values, 32-bit ratio powers, negative bases with negative exponents) the full statement is proved for the repaired code and a guarded `_partial` statement plus a `decide`d counterexample for the code as it is; flags extracted from the Rust source say which applies to the current tree. The model is tied to the Rust on every run by the translator (every pair of exact kinds has a computing match arm in add_two, multiply_two, number_equality, partial_cmp, ...) and by executing the real engine on boundary operand tuples through every call shape and comparing printed results with model and specification. Mixed exact/inexact operations and comparisons are NOT proved: they are tested against 'convert with round-to-nearest, then IEEE binary64' and against the exact values.",
+    "level_text": "Theorems (SteelVerif/C10/Props.lean), for ALL canonical exact operands of any magnitude: add, subtract, negate, multiply, divide, quotient, remainder, modulo, abs, gcd, lcm, expt (exact exponent), numerator, denominator and exact-integer-sqrt of the model return a value that denotes the mathematically exact result (Lean Rat / Int) and is canonical (fixnum iff it fits 64 bits, ratio reduced with denominator > 1, 32-bit ratio iff both parts fit, integral ratios are integers); division by zero is an error exactly when the divisor is zero; = < > <= >= decide the order of the denoted values; two canonical values that denote the same number are identical; the specialised immediate-operand paths equal the generic ones (lte_immediate_is_le holds by definition of the model; lte_immediate_consistent is the statement with content); left folds of + and * over any operand list are exact and canonical (add_chain_exact, mul_chain_exact); unary / is exact (unary_div_exact). The clauses of the property that no theorem carries (number<->string, mixed exact/inexact, the other call shapes, constant folder, native code, huge exponents) are listed at the end of Props.lean. Where the code is defective (abs / reciprocal / expt on the most negative 64-bit and 32-bit values, 32-bit ratio powers, negative bases with negative exponents) the full statement is proved for the repaired code and a guarded `_partial` statement plus a `decide`d counterexample for the code as it is; flags extracted from the Rust source say which applies to the current tree. The model is tied to the Rust on every run by the translator (every pair of exact kinds has a computing match arm in add_two, multiply_two, number_equality, partial_cmp, ...) and by executing the real engine on boundary operand tuples through every call shape and comparing printed results with model and specification. Mixed exact/inexact operations and comparisons are NOT proved: they are tested against 'convert with round-to-nearest, then IEEE binary64' and against the exact values.",
     "level_note": "Trusted: Lean kernel (axioms propext, Classical.choice, Quot.sound only), the hand-written model (num-bigint / Ratio<BigInt> taken as exact, Ratio<i32>, i32::gcd, isize/i32 checked and overflowing operations modelled from their source), the translator's pattern extraction, the harness, driver and comparison, and CPython's int/float/Fraction for the mixed part. number<->string conversion is exercised (every operand is read, every result printed, plus number->string and string->number round trips) but has no theorem here (C12). floor/round/truncate on ratios, huge exponents (|e| > 4096 or bignum exponents other than base 0) are not covered. Overflow is modelled as in a build with overflow checks (panic); a release build wraps instead: same failing inputs, wrong value instead of panic.",
 }
 
